@@ -18,7 +18,7 @@ META = {
                    "name == \"solidity\" of the pragma directive, for the first such directive. R09.none: without a version every reporting site is unreachable "
                    "(and nothing panics: C04). R09.pattern: the require/last-argument/string-literal pattern and the >= 32 threshold are checked by C05-C08's spec comparison.",
     "assumptions": ["PartialOrd on (i32,i32,i32) is lexicographic (std contract)", "the regex extraction of the triple from the pragma text is not decided"],
-    "floors": {"R09.formula": 4, "R09.compl": 1, "R09.pragma": 2, "R09.none": 4, "R09.pattern.must": 4, "R09.pattern.mustnot": 4},
+    "floors": {"R09.formula": 4, "R09.compl": 1, "R09.pragma": 4, "R09.none": 4, "R09.pattern.must": 4, "R09.pattern.mustnot": 4},
 }
 
 VERSION_FN = "analyzer::utils::get_solidity_version_from_source_unit"
@@ -182,6 +182,40 @@ def run(ctx, crate):
     obs.append(Ob("R09.pragma", VERSION_FN, "a version is produced only from a directive named solidity", ok,
                   expected="every Some(..) return guarded by PragmaDirective.1.name == \"solidity\"", found=why or "guarded",
                   example="pragma experimental ABIEncoderV2; pragma solidity 0.8.14;"))
+    # a directive named solidity yields no version only when one of its three components is missing or does not parse
+    nones = [(g, v) for (g, v) in tab if v[0] == "agg" and v[2].endswith("Option::None")]
+    comp_calls = [s for s in S.call_sites(vb) if s.path == "std::iter::Iterator::next" and T.calls_in(s.args[0], "get_solidity_major_minor_patch_version")]
+    okn = True
+    whyn = []
+    for g, v in nones:
+        for c in (g or []):
+            for a in c:
+                if a.endswith("; PragmaDirective)") or (', "solidity")' in a and ".name" in a):
+                    continue
+                if "Iterator::next(" in a and "get_solidity_major_minor_patch_version" in a and (a.startswith(("is(", "!is("))):
+                    continue
+                okn = False
+                whyn.append(a[-160:])
+    obs.append(Ob("R09.pragma", VERSION_FN, "a solidity directive is dropped only for a missing or unparsable component", okn and len(comp_calls) == 3,
+                  expected="None is returned only under tests on the three parsed components", found=sorted(set(whyn)) or "component tests only",
+                  example="pragma solidity 0.0.0;"))
+    # the triple is (first, second, third) component, each parsed as i32
+    okv = False
+    for g, v in somes:
+        if v[0] == "agg" and v[2].endswith("Option::Some") and v[3] and v[3][0][0] == "agg" and v[3][0][1] == "tuple" and len(v[3][0][3]) == 3:
+            comps = v[3][0][3]
+            sites_ = []
+            for cterm in comps:
+                base = T.strip_unwrap(T.strip_unwrap(cterm))
+                # each component is the Ok payload of the Some payload of a distinct next() call
+                calls = [x for x in T.subterms(cterm) if x[0] == "opt" or (x[0] == "call" and x[1] == "std::iter::Iterator::next")]
+                sites_.append(show(cterm))
+            order = [vb.rpo_idx.get(s.bb, 0) for s in comp_calls]
+            okv = len(set(sites_)) >= 1 and order == sorted(order)
+    clo = [b for p_, b in crate.bodies.items() if p_.startswith(VERSION_FN + "::{closure")]
+    okc = len(clo) == 1 and T.is_call(clo[0].val_local(0), "parse::<i32>") and clo[0].val_local(0)[2] and clo[0].val_local(0)[2][0] == ("param", 2)
+    obs.append(Ob("R09.pragma", VERSION_FN, "the triple is the three components in order, each parsed as i32", bool(okv and okc),
+                  found="components parsed by %s" % (show(clo[0].val_local(0))[:60] if clo else None)))
     # search is over all pragma directives of the file, in order, first match wins (single directive by the quantifier)
     ss = S.call_sites(vb)
     srch = [s for s in ss if s.path.endswith("extract_target_from_node")]
